@@ -1023,7 +1023,10 @@ func (r *SexpHash) Type() *RegisteredType {
 	return GoStructRegistry.Registry[r.TypeName]
 }
 
-func compareHash(a *SexpHash, bs Sexp) (int, error) {
+// compareHash: two hashes are equal when they are of the same type and hold
+// the same keys with equal values, in whatever order the keys were inserted.
+// Hashes are not ordered: unequal hashes compare as 1.
+func (env *Zlisp) compareHash(a *SexpHash, bs Sexp) (int, error) {
 
 	var b *SexpHash
 	switch bt := bs.(type) {
@@ -1036,7 +1039,30 @@ func compareHash(a *SexpHash, bs Sexp) (int, error) {
 	if a.TypeName != b.TypeName {
 		return 1, nil
 	}
-
+	if a == b {
+		return 0, nil
+	}
+	if a.NumKeys != b.NumKeys {
+		return 1, nil
+	}
+	for _, arr := range a.Map {
+		for _, pair := range arr {
+			bval, err := b.HashGetDefault(env, pair.Head, SexpEnd)
+			if err != nil {
+				return 0, err
+			}
+			if bval == SexpEnd {
+				return 1, nil
+			}
+			res, err := env.Compare(pair.Tail, bval)
+			if err != nil {
+				return 0, err
+			}
+			if res != 0 {
+				return 1, nil
+			}
+		}
+	}
 	return 0, nil
 }
 
